@@ -27,7 +27,7 @@ def run(cmd, cwd=None, env=None, timeout=3600):
 
 def demo(d, wt, scratch):
     env = dict(ENV, WORKTREE=wt, SCRATCH_ROOT=scratch, TMPDIR=scratch)
-    return run(["sh", "run.sh", wt], cwd=os.path.join(d, "demo"), env=env, timeout=2400)
+    return run(["bash", "run.sh", wt], cwd=os.path.join(d, "demo"), env=env, timeout=2400)
 
 
 def confirm(d):
